@@ -183,11 +183,32 @@ class C16(Property):
         digits = _ranges(i for i in _scalars() if d.match(chr(i)))
         spaces = _ranges(i for i in _scalars() if chr(i).isspace())
         seps = [i for i in _scalars() if len(('a' + chr(i) + 'b').splitlines()) > 1]
-        shapes = {
-            'frameReShape': regex_shape(tbutils._frame_re.pattern),
-            'seFrameReShape': regex_shape(tbutils._se_frame_re.pattern),
-            'underlineReShape': regex_shape(tbutils._underline_re.pattern),
-        }
+        shapes = {}
+        how = {}
+        for key, attr in (('frameReShape', '_frame_re'), ('seFrameReShape', '_se_frame_re'),
+                          ('underlineReShape', '_underline_re')):
+            pat = getattr(getattr(tbutils, attr, None), 'pattern', None)
+            shape = None
+            if isinstance(pat, str):
+                try:
+                    shape = regex_shape(pat)
+                except Exception:
+                    shape = None
+            if shape == self.CANON_SHAPES[key]:
+                how[key] = 'regex'
+            else:
+                # the scanner is not (or no longer) this regular expression: an equivalent pattern written
+                # differently, or a scanner written without `re`.  What the theorems need is the language and the
+                # groups, not the notation: ask ParsedException.from_string itself about a finite family of lines
+                # over the alphabet of the line grammar and compare with the canonical pattern (compiled here)
+                bad = self.probe_scanner(tbutils, key)
+                if bad is None:
+                    shape, how[key] = self.CANON_SHAPES[key], 'probe'
+                else:
+                    shape = (shape or []) + ['probe-mismatch:' + bad]
+                    how[key] = 'mismatch'
+            shapes[key] = shape
+        self.stats['scanner_tie'] = ', '.join('%s: %s' % (k, how[k]) for k in sorted(how))
 
         def pairs(rs):
             return '[' + ', '.join('(%d, %d)' % (a, b) for a, b in rs) + ']'
@@ -207,6 +228,75 @@ class C16(Property):
             src += 'def %s : List (List Char) := %s\n\n' % (name, strs(shapes[name]))
         src += 'end C16.Gen\n'
         return {'C16_Tables.lean': src}
+
+    CANON_SHAPES = {
+        'frameReShape': ['^', 'lit:File "', 'any+', 'lit:", line ', 'digit+', 'lit:, in ', 'any+', '$'],
+        'seFrameReShape': ['^', 'lit:File "', 'any+', 'lit:", line ', 'digit+'],
+        'underlineReShape': ['^', 'set*: ^~', '$'],
+    }
+    CANON_RE = {
+        'frameReShape': re.compile(r'^File "(.+)", line (\d+), in (.+)$'),
+        'seFrameReShape': re.compile(r'^File "(.+)", line (\d+)'),
+        'underlineReShape': re.compile(r'^[~^ ]*$'),
+    }
+    PROBE_TOKENS = ['File "', '", line ', ', in ', '7', '0', '\u0663', '\u00b2', 'a', ' ', '"', ',', 'F', 'line', 'in', '\u00e9']
+    PROBE_UL = ['~', '^', ' ', 'x', '\t', '-', '\u00a0', '~^', '_']
+
+    def probe_lines(self, key):
+        import random
+        rnd = random.Random('C16-probe-' + key)      # the same family on every run
+        if key == 'underlineReShape':
+            for n in range(0, 5):
+                for seq in itertools.product(self.PROBE_UL, repeat=n):
+                    yield ''.join(seq)
+            return
+        T = self.PROBE_TOKENS
+        for n in range(0, 4):
+            for seq in itertools.product(T, repeat=n):
+                yield ''.join(seq)
+        def part(lo, hi, toks):
+            return ''.join(rnd.choice(toks) for _ in range(rnd.randint(lo, hi)))
+        for _ in range(30000):
+            path = part(0, 4, T)
+            num = part(0, 3, ['7', '0', '\u0663', '\u00b2', 'a', ' ', ''])
+            tail = rnd.choice(['', ', in ', ', in', ',in f', ' , in f', ', in  ']) + part(0, 3, T)
+            yield rnd.choice(['File "', 'File "', 'file "', ' File "', 'File"', 'xFile "']) + path + \
+                rnd.choice(['", line ', '", line ', '",line ', '" line ', "', line "]) + num + tail
+
+    def probe_scanner(self, tbutils, key):
+        """None when from_string treats every probe line as the canonical pattern does, else a description of the
+        first line on which it does not"""
+        ref = self.CANON_RE[key]
+        n = 0
+        for ln in self.probe_lines(key):
+            try:
+                with time_limit(10):
+                    if key == 'underlineReShape':
+                        pe = tbutils.ParsedException.from_string(HEADER + '\n  File "a", line 1, in f\n    src\n' + ln + '\nE: m')
+                        got = [len(pe.frames), pe.exc_type, pe.exc_msg]
+                        rest = 'E: m' if ref.match(ln) else ln + '\nE: m'
+                        want = [1, rest.partition(': ')[0], rest.partition(': ')[2]]
+                    elif key == 'frameReShape':
+                        pe = tbutils.ParsedException.from_string(HEADER + '\n' + ln + '\nE: m')
+                        got = [[f.get('filepath'), f.get('lineno'), f.get('funcname')] for f in pe.frames]
+                        m = ref.match(ln.strip())
+                        want = [list(m.groups())] if m else []
+                    else:
+                        if not ln.strip():
+                            continue
+                        pe = tbutils.ParsedException.from_string(ln + '\n    x\n  ^\nSyntaxError: bad')
+                        got = [[f.get('filepath'), f.get('lineno'), f.get('funcname')] for f in pe.frames]
+                        m = ref.match(ln.strip())
+                        want = [list(m.groups()) + [None]] if m else []
+            except CaseTimeout:
+                return 'timeout on %r' % ln
+            except Exception as e:
+                return '%s on %r' % (exc_name(e), ln)
+            n += 1
+            if got != want:
+                return '%r read as %r, the pattern says %r' % (ln, got, want)
+        self.stats['scanner_probe_lines_' + key] = n
+        return None
 
     # ------------------------------------------------------------------ the statement's domain (texts)
     @staticmethod
